@@ -290,7 +290,11 @@ func encryptLib(recs []age.Recipient, plain []byte, segs []int, withArmor bool) 
 		aw = armor.NewWriter(&out)
 		dst = aw
 	}
+	recsBefore := append([]age.Recipient{}, recs...)
 	w, err := age.Encrypt(dst, recs...)
+	if !sameValues(recsBefore, recs) {
+		return nil, fmt.Errorf("Encrypt changed the caller's list of recipients")
+	}
 	if err != nil {
 		return nil, fmt.Errorf("Encrypt: %w", err)
 	}
@@ -308,13 +312,36 @@ func encryptLib(recs []age.Recipient, plain []byte, segs []int, withArmor bool) 
 	return out.Bytes(), nil
 }
 
+// sameValues: the two slices hold the same interface values in the same order.
+func sameValues[T any](a, b []T) (same bool) {
+	defer func() {
+		if recover() != nil {
+			same = true // values of a non-comparable type: nothing to tell
+		}
+	}()
+	if len(a) != len(b) {
+		return false
+	}
+	for i := range a {
+		if any(a[i]) != any(b[i]) {
+			return false
+		}
+	}
+	return true
+}
+
 // decryptLib decrypts with the library; err is nil only for a clean EOF.
 func decryptLib(file []byte, d hx.Delivery, plan []int, armored bool, ids ...age.Identity) ([]byte, error, bool) {
 	src, _ := hx.NewReader(file, d)
 	if armored {
 		src = armor.NewReader(src)
 	}
+	idsBefore := append([]age.Identity{}, ids...)
 	r, err := age.Decrypt(src, ids...)
+	if !sameValues(idsBefore, ids) {
+		// the variadic slice is the caller's own: its order is what "consulted in the order given" refers to on the next call
+		return nil, fmt.Errorf("Decrypt changed the caller's list of identities"), r != nil
+	}
 	if err != nil {
 		if r != nil {
 			return nil, fmt.Errorf("Decrypt returned both a reader and an error: %w", err), true
